@@ -120,3 +120,15 @@ register('C10', 'translation_validation',
          "reals for floats; convergence of dopri5 / solve_ivp to the DDE solution is NOT claimed (third-party adaptive "
          "integrators); DDEHistory's interpolation is C19; kernel bound: steps <= 6/10, delay 1..3 steps (multiples of dt)",
          "SMT translation validation with uninterpreted history functions (symx + z3)", "7/C10")
+register('C06', 'translation_validation',
+         "The real CircuitTemplate.run executes with a _solve stub that captures the compiled function/arguments/source "
+         "and returns a tag matrix. The captured function goes through translation validation (z3 proves, with per-node "
+         "distinct symbols, which model variable every state position computes); the DataFrame's cells reveal the state "
+         "index each column carries. Obligations: the columns are exactly the requested variables (dict and list form, "
+         "single node, several keys, 'all' at every level, partial wildcards, hierarchy depth <= 2) and the column whose "
+         "label names variable V carries index pos(V) - for every tested permutation of the node declaration order "
+         "(all 24 for 4 nodes in thorough) and vectorize on/off.",
+         "reals for floats; label conventions: dict key (single match), (key, *node path, op/var) for wildcard matches, "
+         "full path for list requests; the request/permutation quantifier is bounded enumeration; population outputs "
+         "under C16, inputs under C08, edges under C01",
+         "SMT translation validation of the function captured inside run() + tag flow (symx + z3)", "7/C06")
